@@ -1,6 +1,7 @@
 import Tickit.Proof.EvLoopPoll
 import Tickit.Proof.EvLoopMulti
 import Tickit.Gen.EvLoop
+import Tickit.Model.EvLoopFb
 /-
   C18 — A delivered signal or ready descriptor always reaches its watchers.   (claimed: partial)
 
@@ -31,6 +32,12 @@ import Tickit.Gen.EvLoop
   Defects of the shipped tree: the `*_counterexample` theorems (corpus/C18).  No statement of the property
   is left open; `OsPpoll` is assumed.  The default loop serves ONE toplevel instance with signals (its own
   TODO): `second_instance_*_counterexample` (known findings).
+
+  The self-pipe configuration (event hooks without signal members; Model/EvLoopFb.lean) is covered by the
+  differential run and the executable specification; here only: `fb_handler_records_and_wakes`,
+  `fb_dispatch_starts_from_empty_pending` (all states), the defect `fb_self_cancel_counterexample` /
+  `fb_self_cancel_repaired`, and evaluated schedules of arrival during dispatch (`fb_arrival_during_dispatch_*`).
+  The end-to-end statement `FbSignalReachesWatchers` is open (engines.d/C18.json).
 -/
 namespace Tickit.Props.C18
 open Tickit Tickit.EvLoop
@@ -397,5 +404,69 @@ theorem signal_self_cancel_counterexample : (runOps .shipped probeSigSelfCancel)
   decide +kernel
 theorem signal_self_cancel_repaired : (runOps .repaired probeSigSelfCancel).status = .ok ∧
     cbLog (runOps .repaired probeSigSelfCancel) = [.cb 0 1 .none] := by decide +kernel
+
+/-! ### the self-pipe configuration (event hooks without `.signal` / `.cancel_signal`; Model/EvLoopFb.lean) -/
+
+/-- `sighandler` of tickit.c: a watched signal that reaches the process of the observing instance is recorded in
+    `t->signal.pending` *and* leaves a wake-up byte in the pipe — whenever it arrives (nothing is blocked). -/
+theorem fb_handler_records_and_wakes (st : St) (s : Int) (hok : st.isOk = true) (hh : st.handled.contains s = true)
+    (ho : st.observer = .self) :
+    (Fb.raiseSig st s).pendingSig.contains s = true ∧ (Fb.raiseSig st s).pipeBytes = st.pipeBytes + 1 ∧
+    (Fb.raiseSig st s).isOk = true := by
+  have hok' : st.status = .ok := by simpa [St.isOk] using hok
+  unfold Fb.raiseSig Fb.sigRecord
+  simp only [hok, hh, ho, Bool.not_true, Bool.false_eq_true, if_false, if_true]
+  refine ⟨?_, trivial, ?_⟩
+  · unfold setInsert
+    by_cases h : s ∈ st.pendingSig
+    · simp [h]
+    · simp [h]
+  · simp [St.isOk, hok']
+
+example : (Fb.raiseSig (Fb.runOps .repaired [.act (.signal 0 10 0)]) 10).pipeBytes = 1 := by decide +kernel
+
+/-- `on_sigpipe_readable` consumes one byte and empties `t->signal.pending` together with taking the snapshot,
+    *before* any watcher runs: what a callback's `raise` records afterwards is kept for the next iteration. -/
+theorem fb_dispatch_starts_from_empty_pending (fuel : Nat) (st : St) (h : st.cfg.sigpipeViaInvoke = true) :
+    Fb.onSigpipeReadable fuel st =
+      Fb.sigpipeInvoke fuel { st with pipeBytes := st.pipeBytes - 1, pendingSig := [] } st.pendingSig signalRange := by
+  unfold Fb.onSigpipeReadable
+  simp [h]
+
+def fbProbeSelfCancel : List Op := [.beh ⟨0, 0, [.cancel 0]⟩, .act (.signal 0 10 0), .act (.raise 10), .tick]
+
+/-- Defect (known finding `sigpipe_self_cancel_uaf`, repair fixes/C18_sigpipe_dispatch.patch): as found,
+    `on_sigpipe_readable` reads `this->next` of a signal watch that cancelled itself from its own callback. -/
+theorem fb_self_cancel_counterexample :
+    (Fb.runOps { Config.repaired with sigpipeViaInvoke := false } fbProbeSelfCancel).status = .ub .sigLoopThis := by
+  decide +kernel
+theorem fb_self_cancel_repaired : (Fb.runOps .repaired fbProbeSelfCancel).status = .ok ∧
+    cbLog (Fb.runOps .repaired fbProbeSelfCancel) = [.cb 0 1 .none] := by decide +kernel
+
+/-- Arrival while signal callbacks run: watcher 0 (signal 10) raises signal 12 — resp. signal 10 again — from its
+    callback; the watchers of the new arrival run in the next iteration, without a further signal (both texts). -/
+theorem fb_arrival_during_dispatch_other :
+    cbLog (Fb.runOps .repaired [.beh ⟨0, 0, [.raise 12]⟩, .act (.signal 0 10 0), .act (.signal 1 12 0), .act (.raise 10), .tick, .tick])
+      = [.cb 1 1 .none] ∧
+    cbLog (Fb.runOps { Config.repaired with sigpipeViaInvoke := false }
+      [.beh ⟨0, 0, [.raise 12]⟩, .act (.signal 0 10 0), .act (.signal 1 12 0), .act (.raise 10), .tick, .tick]) = [.cb 1 1 .none] := by
+  decide +kernel
+theorem fb_arrival_during_dispatch_same :
+    cbLog (Fb.runOps .repaired [.beh ⟨0, 0, [.raise 10]⟩, .act (.signal 0 10 0), .act (.signal 1 10 0), .act (.raise 10), .tick, .tick])
+      = [.cb 0 1 .none, .cb 1 1 .none] := by
+  decide +kernel
+
+/-- Open (engines.d/C18.json): in the self-pipe configuration, a signal recorded by the handler while watch `a` is in
+    `t->signals` leads to `a`'s callback in the iteration whose wait begins next, unless `a` is cancelled meanwhile.
+    Needs the invariant `pendingSig ≠ [] → pipeBytes > 0` through every callback (the analogue of
+    `signal_bookkeeping_invariant`) and `signal_reaches_watchers` restated for `Fb.sigDispatch`.  Covered by the
+    executable specification on every generated and enumerated schedule. -/
+def FbSignalReachesWatchers : Prop :=
+  ∀ (st : St) (s : Int) (a : Nat), st.isOk = true → st.alive = true → st.cfg = Config.repaired →
+    st.observer = .self → st.pendingSig.contains s = true → st.pipeBytes > 0 →
+    st.signals.contains a = true → (st.getW a).signum = s → (st.getW a).slot ≥ 0 →
+    (Fb.tick defaultFuel { st with stillRunning := true, log := [] } true).isOk = true →
+    (Fb.tick defaultFuel { st with stillRunning := true, log := [] } true).live a = true →
+    (Fb.tick defaultFuel { st with stillRunning := true, log := [] } true).log.contains (.cb (st.getW a).slot EV_FIRE .none) = true
 
 end Tickit.Props.C18
